@@ -49,6 +49,7 @@ Gamut(name) ==
       [] name = "t_dbl"     -> << <<"e", 1>> >>
       [] name = "t_oneway"  -> << <<"e", 1>> >>
       [] name = "t_failodd" -> << >>
+      [] name = "t_drift"   -> << <<"rate", 1>>, <<"t0", 0>> >>
       [] name = "noop"      -> << >>
 Invertible(name) == name # "t_oneway"
 
@@ -148,6 +149,12 @@ Leaf(op, d, data) ==
       [] op.name = "t_oneway" ->
            IF d = "F" THEN [data |-> SetCol(data, op.p["e"], [k \in 1..n |-> Add(data[k][op.p["e"]], Unit)]), cnt |-> n]
            ELSE [data |-> data, cnt |-> 0]        \* unsupported inverse: zero, data untouched
+      \* time dependent: element 1 moves by rate * (t - t0), t being the tuple's own epoch
+      [] op.name = "t_drift" ->
+           [data |-> SetCol(data, 1, [k \in 1..n |->
+                        LET dt == Sub(data[k][4], op.p["t0"] * Unit)
+                            sh == IF dt = NaN THEN NaN ELSE op.p["rate"] * dt
+                        IN IF d = "F" THEN Add(data[k][1], sh) ELSE Sub(data[k][1], sh)]), cnt |-> n]
       [] op.name = "t_failodd" ->
            [data |-> [k \in 1..n |-> IF Odd(data[k][1]) \/ data[k][1] = NaN THEN AllNaN ELSE data[k]],
             cnt |-> Cardinality({k \in 1..n : ~(Odd(data[k][1]) \/ data[k][1] = NaN)})]
